@@ -325,12 +325,14 @@ func matchesLikePattern(text, pattern string) bool {
 	ti, pi := 0, 0
 	starIdx, matchIdx := -1, 0 // last '%' index in pattern; text index when we took it
 	for ti < len(text) {
-		if pi < len(pattern) && (pattern[pi] == '_' || pattern[pi] == text[ti]) {
-			ti++
-			pi++
-		} else if pi < len(pattern) && pattern[pi] == '%' {
+		// '%' in the pattern is always a wildcard: test it before the literal
+		// comparison, or a '%' in the text would consume it as a plain character.
+		if pi < len(pattern) && pattern[pi] == '%' {
 			starIdx = pi
 			matchIdx = ti
+			pi++
+		} else if pi < len(pattern) && (pattern[pi] == '_' || pattern[pi] == text[ti]) {
+			ti++
 			pi++
 		} else if starIdx != -1 {
 			// backtrack: let the last '%' consume one more character
